@@ -387,6 +387,22 @@ def gen_policy_scripts(work, mode, tier, seed, quick_n=1500):
     return r, scripts, len(qs)
 
 
+def gen_tokenauth_other_mechanism_scripts(tier, seed):
+    """Cookie authentication switched on (the default) on a gateway whose HTTP front door is NTLM or basic, not OpenID:
+    the tunnel request still needs an acceptable cookie (there is none to be had), and nothing follows without it."""
+    scripts = []
+    for n, kind in enumerate(["bad:garbage", "none", "bad:tiny", "bad:emptystr", "bad:garbage", "bad:tiny"]):
+        for auth in ("ntlm", "local"):
+            cfg = {"tokenAuth": True, "smartCard": False, "auth": auth, "sel": ["roundrobin", "any"][n % 2], "hosts": [["H1", ":", "PA"]], "verifyIp": True, "idle": 0}
+            if auth == "local":
+                cfg["tls"] = True
+            steps = [{"k": "hs", "cls": "valid", "caps": 2, "major": 1, "minor": n}, {"k": "create", "cls": "valid", "cookie": kind},
+                     {"k": "auth", "cls": "valid"}, {"k": "chan", "cls": "valid", "name": ["H1"], "port": "PA"}, {"k": "data", "cls": "valid", "n": 8}]
+            scripts.append({"id": "tk%03d%s" % (n, auth), "origin": "tokenauth-without-openid", "cfg": cfg, "transport": ["ws", "legacy"][n % 2],
+                            "tun": dict(H_A, user="nuser1" if auth == "ntlm" else "7"), "steps": steps})
+    return scripts
+
+
 def gen_dupin_scripts(tier, seed):
     """Legacy: a second RDG_IN_DATA request under the tunnel's identifier arrives before the first one has sent its first
     bytes; afterwards a whole session is sent on whichever of the two the gateway accepted."""
@@ -499,7 +515,7 @@ def gen_c16_scripts(tier, seed):
 
 # ---------------------------------------------------------------- C02 at tunnel level: every forged cookie class
 
-BAD_KINDS = ["garbage", "emptystr", "expired", "wrongkey", "algnone", "hs384", "hs512", "rs256", "wrongiss", "noiss", "revoked", "unknownat",
+BAD_KINDS = ["garbage", "tiny", "tiny", "emptystr", "expired", "wrongkey", "algnone", "hs384", "hs512", "rs256", "wrongiss", "noiss", "revoked", "unknownat",
              "idperror", "nbffuture", "json", "flatjson", "nested", "mutpayload", "mutsig", "muthdr", "trunc", "emptykey", "expiredleeway"]
 
 
@@ -542,6 +558,7 @@ def gen_cookie_scripts(tier, seed):
                     scripts.append({"id": "k%05d-%s" % (n, "announced" if cls == "short" else "before"), "origin": "cookie:announced", "cfg": cfg, "transport": tr,
                                     "tun": dict(H_A, user="user1"), "steps": steps, "grp": "ann-%s-%s" % (sel, tr)})
                     n += 1
+    scripts += gen_tokenauth_other_mechanism_scripts(tier, seed)
     # a cookie that is still acceptable (inside the leeway) when the connection is opened and has left the leeway when it
     # is presented on that connection 26 s later - and, for comparison, one presented right away
     cfg = {"tokenAuth": True, "smartCard": False, "auth": "openid", "sel": "roundrobin", "hosts": [["H1", ":", "PA"]], "verifyIp": True, "idle": 0}
